@@ -246,6 +246,8 @@ def haralick_features(cmats,
     for cmat in cmats:
         feats = np.zeros(13 + bool(compute_14th_feature), np.double)
         if ignore_zeros:
+            # do not touch the caller's matrices
+            cmat = np.array(cmat)
             cmat[0] = 0
             cmat[:,0] = 0
         T = cmat.sum()
